@@ -93,6 +93,20 @@ func C18() *runner.Property {
 					}
 				}
 			}
+			// native mode: one local value is not in the native format (shorter than a header / no header at all) and
+			// the snapshot carries that key
+			for fd := 0; fd < 3; fd++ {
+				for _, pos := range []string{"first", "middle", "last"} {
+					for _, sub := range []string{"short", "headerless"} {
+						add(c18Params{Kind: "localmalformed", Native: true, NDBI: 3, FailDBI: fd, FailPos: pos, Sub: sub, Format: 3, Compat: 1})
+					}
+				}
+			}
+			// a DupSort DBI the instance does not have yet arrives in a current-format snapshot without any transform,
+			// and the instance runs without dupsort_hack: whatever LoadOnce decides, it decides for the whole snapshot
+			for fd := 0; fd < 3; fd++ {
+				add(c18Params{Kind: "missingdbi", Native: false, NDBI: 3, FailDBI: fd, Sub: "dupsort-nohack", Format: 3, Compat: 1})
+			}
 			for _, f := range []uint32{1, 2} {
 				for _, sub := range []string{"no-override", "override"} {
 					for fd := 0; fd < 3; fd++ {
@@ -217,6 +231,17 @@ func runC18(c runner.Case, env *runner.Env) (res runner.Result) {
 				}
 			}
 		}
+		if p.Kind == "localmalformed" {
+			fi := failIndex(p.FailPos)
+			bad := []byte("short")
+			if p.Sub == "headerless" {
+				bad = []byte("a plain application value without any header, longer than twenty-four bytes")
+				bad[16] = 7 // where a header carries its version byte
+			}
+			if err := lmdbx.Put(txn, fmt.Sprintf("d%d", p.FailDBI), 0, []byte(fmt.Sprintf("k%03d", fi)), bad); err != nil {
+				return err
+			}
+		}
 		// a private DBI that must never be touched by a merge
 		return lmdbx.Put(txn, "_sync_private", 0, []byte("p"), []byte("local-private"))
 	})
@@ -327,8 +352,22 @@ func runC18(c runner.Case, env *runner.Env) (res runner.Result) {
 		blob = wire.Gzip(wire.EncodeSnapshot(snap))
 	case "missingdbi":
 		// shadow mode, pre-v3 snapshot, the DBI does not exist locally
+		if p.Sub == "dupsort-nohack" {
+			for d := p.FailDBI; d < p.NDBI; d++ {
+				// as a sender with dupsort_hack writes it: flag and transform agree
+				snap.DBIs[d].Flags = uint64(lmdb.DupSort)
+				snap.DBIs[d].Transform = "dupsort_hack_v1"
+			}
+		}
 		blob = wire.Gzip(wire.EncodeSnapshot(snap))
 		expectFail = !strings.HasPrefix(p.Sub, "override")
+		if p.Sub == "dupsort-nohack" {
+			expectFail, either = false, true
+		}
+	case "localmalformed":
+		blob = wire.Gzip(wire.EncodeSnapshot(snap))
+		expectFail, either = false, true
+		wroteBefore = p.FailDBI > 0 || p.FailPos != "first"
 	case "cancel":
 		loadCtx = newPollCtx(p.CancelK)
 		blob = wire.Gzip(wire.EncodeSnapshot(snap))
@@ -394,7 +433,7 @@ func runC18(c runner.Case, env *runner.Env) (res runner.Result) {
 		if !expectFail && !either && p.Kind == "versions" {
 			res.Violate("supported-version-refused", fmt.Sprintf("format %d compat %d was refused: %v", p.Format, p.Compat, lerr), wit)
 		}
-		if p.Kind == "missingdbi" && !expectFail {
+		if p.Kind == "missingdbi" && !expectFail && !either {
 			res.Violate("override-create-flags-ignored", "with override_create_flags the pre-v3 snapshot must be accepted: "+lerr.Error(), wit)
 		}
 		if p.Kind == "private" {
@@ -430,7 +469,7 @@ func runC18(c runner.Case, env *runner.Env) (res runner.Result) {
 				res.Violate("private-dbi-created", "a private DBI of the snapshot was created locally", wit)
 			}
 		}
-		if p.Kind == "versions" || p.Kind == "mapfull" || p.Kind == "cancel" || p.Kind == "missingdbi" || p.Kind == "private" {
+		if p.Kind == "versions" || p.Kind == "mapfull" || p.Kind == "cancel" || p.Kind == "missingdbi" || p.Kind == "private" || p.Kind == "localmalformed" {
 			// complete: every entry of the non-private DBIs present
 			st, _ := inst.LogicalOf(after, p.Native)
 			for d := 0; d < p.NDBI; d++ {
@@ -446,6 +485,20 @@ func runC18(c runner.Case, env *runner.Env) (res runner.Result) {
 				}
 				if n != entriesPerDBI {
 					res.Violate("successful-merge-incomplete", fmt.Sprintf("LoadOnce succeeded but DBI %s has %d of %d entries of the snapshot", name, n, entriesPerDBI), wit)
+				}
+				if !p.Native && p.Sub == "dupsort-nohack" {
+					// the application's view is part of the merge: all or nothing there too
+					an := 0
+					if ad := after[name]; ad != nil {
+						for _, kv := range ad.KVs {
+							if strings.Contains(string(kv.V), "batch-0001") {
+								an++
+							}
+						}
+					}
+					if an != entriesPerDBI {
+						res.Violate("successful-merge-incomplete", fmt.Sprintf("LoadOnce succeeded but the application DBI %s has %d of %d entries of the snapshot (timestamped state: %d)", name, an, entriesPerDBI, n), wit)
+					}
 				}
 			}
 		}
